@@ -354,6 +354,104 @@ Section Generic.
     Proof. intros f. exact (proj1 (eval_post_all f)). Qed.
   End Positions.
 
+  (** ** (C) more fuel never changes an answer *)
+  Definition ext (ev ev' : evaluator A V E) : Prop :=
+    forall e cr st fr, ev e cr st fr <> OutOfFuel -> ev' e cr st fr = ev e cr st fr.
+
+  Lemma seq_go_ext : forall ev ev' cr st0, ext ev ev' ->
+    forall es st1 fr1 acc, seq_go ev cr st0 es st1 fr1 acc <> OutOfFuel ->
+    seq_go ev' cr st0 es st1 fr1 acc = seq_go ev cr st0 es st1 fr1 acc.
+  Proof.
+    intros ev ev' cr st0 Hx es. induction es as [|e1 es IH]; intros st1 fr1 acc Hne; cbn [Peg.seq_go] in *; [reflexivity|].
+    destruct (ev e1 cr st1 fr1) as [ok v st2 fr2|st2|] eqn:He; [| |congruence].
+    - rewrite (Hx e1 cr st1 fr1) by (rewrite He; discriminate). rewrite He.
+      destruct ok; [apply IH; exact Hne | reflexivity].
+    - rewrite (Hx e1 cr st1 fr1) by (rewrite He; discriminate). rewrite He. reflexivity.
+  Qed.
+
+  Lemma choice_go_ext : forall ev ev' cr fr, ext ev ev' ->
+    forall es st1, choice_go ev cr fr es st1 <> OutOfFuel ->
+    choice_go ev' cr fr es st1 = choice_go ev cr fr es st1.
+  Proof.
+    intros ev ev' cr fr Hx es. induction es as [|e1 es IH]; intros st1 Hne; cbn [Peg.choice_go] in *; [reflexivity|].
+    destruct (ev e1 cr st1 []) as [ok v st2 fr2|st2|] eqn:He; [| |congruence].
+    - rewrite (Hx e1 cr st1 []) by (rewrite He; discriminate). rewrite He.
+      destruct ok; [reflexivity | apply IH; exact Hne].
+    - rewrite (Hx e1 cr st1 []) by (rewrite He; discriminate). rewrite He. reflexivity.
+  Qed.
+
+  Lemma eval_mono_all : forall f,
+    ext (eval f) (eval (S f))
+    /\ (forall e1 cr st fr acc, eval_loop f e1 cr st fr acc <> OutOfFuel ->
+          eval_loop (S f) e1 cr st fr acc = eval_loop f e1 cr st fr acc).
+  Proof.
+    induction f as [|f [IHe IHl]].
+    - split; [intros e cr st fr Hne | intros e1 cr st fr acc Hne]; cbn in Hne; congruence.
+    - assert (Hsub : forall e1 cr st fr, eval f e1 cr st fr <> OutOfFuel ->
+                                         eval (S f) e1 cr st fr = eval f e1 cr st fr) by exact IHe.
+      split.
+      + intros e cr st fr Hne. rewrite (eval_S (S f)). rewrite (eval_S f) in Hne |- *.
+        destruct e as [a e1|es|es|l e1|e1|e1|e1|e1|e1|i|runes|chars ranges inv|].
+        * destruct (eval f e1 cr st fr) as [ok v st1 fr1|st1|] eqn:He; [| |congruence];
+            rewrite (Hsub e1 cr st fr) by (rewrite He; discriminate); rewrite He; reflexivity.
+        * apply seq_go_ext; assumption.
+        * apply choice_go_ext; assumption.
+        * destruct (eval f e1 cr st []) as [ok v st1 fr1|st1|] eqn:He; [| |congruence];
+            rewrite (Hsub e1 cr st []) by (rewrite He; discriminate); rewrite He; reflexivity.
+        * apply IHl. exact Hne.
+        * destruct (eval f e1 cr st []) as [ok v st1 fr1|st1|] eqn:He; [| |congruence];
+            rewrite (Hsub e1 cr st []) by (rewrite He; discriminate); rewrite He; [|reflexivity].
+          destruct ok; [apply IHl; exact Hne | reflexivity].
+        * destruct (eval f e1 cr st []) as [ok v st1 fr1|st1|] eqn:He; [| |congruence];
+            rewrite (Hsub e1 cr st []) by (rewrite He; discriminate); rewrite He; reflexivity.
+        * destruct (eval f e1 cr st []) as [ok v st1 fr1|st1|] eqn:He; [| |congruence];
+            rewrite (Hsub e1 cr st []) by (rewrite He; discriminate); rewrite He; reflexivity.
+        * destruct (eval f e1 cr st []) as [ok v st1 fr1|st1|] eqn:He; [| |congruence];
+            rewrite (Hsub e1 cr st []) by (rewrite He; discriminate); rewrite He; reflexivity.
+        * destruct (nth_error rules i) as [body|]; [|reflexivity].
+          destruct (eval f body i st []) as [ok v st1 fr1|st1|] eqn:He; [| |congruence];
+            rewrite (Hsub body i st []) by (rewrite He; discriminate); rewrite He; reflexivity.
+        * reflexivity.
+        * reflexivity.
+        * reflexivity.
+      + intros e1 cr st fr acc Hne. rewrite (eval_loop_S (S f)). rewrite (eval_loop_S f) in Hne |- *.
+        destruct (eval f e1 cr st []) as [ok v st1 fr1|st1|] eqn:He; [| |congruence];
+          rewrite (Hsub e1 cr st []) by (rewrite He; discriminate); rewrite He; [|reflexivity].
+        destruct ok; [apply IHl; exact Hne | reflexivity].
+  Qed.
+
+  Lemma eval_mono : forall f f' e cr st fr, f <= f' ->
+    eval f e cr st fr <> OutOfFuel -> eval f' e cr st fr = eval f e cr st fr.
+  Proof.
+    intros f f' e cr st fr Hle. induction Hle as [|m Hle IH]; intros Hne; [reflexivity|].
+    rewrite (proj1 (eval_mono_all m) e cr st fr); [exact (IH Hne)|]. rewrite (IH Hne). exact Hne.
+  Qed.
+
+  (** two sufficient budgets give the same answer *)
+  Lemma eval_fuel_irrelevant : forall f1 f2 e cr st fr,
+    eval f1 e cr st fr <> OutOfFuel -> eval f2 e cr st fr <> OutOfFuel ->
+    eval f1 e cr st fr = eval f2 e cr st fr.
+  Proof.
+    intros f1 f2 e cr st fr H1 H2. destruct (Nat.le_ge_cases f1 f2) as [Hle|Hle].
+    - symmetry. apply eval_mono; assumption.
+    - apply eval_mono; assumption.
+  Qed.
+
+  Lemma parse_fuel_irrelevant : forall f1 f2 input,
+    Peg.parse A V E vnil vbytes vlist run_action rules f1 input <> PFuel ->
+    Peg.parse A V E vnil vbytes vlist run_action rules f2 input <> PFuel ->
+    Peg.parse A V E vnil vbytes vlist run_action rules f1 input
+    = Peg.parse A V E vnil vbytes vlist run_action rules f2 input.
+  Proof.
+    intros f1 f2 input. unfold Peg.parse. destruct (nth_error rules 0) as [body|]; [|reflexivity].
+    intros H1 H2.
+    assert (E1 : eval f1 body 0 (initial_state E input) [] <> OutOfFuel).
+    { intro Hc. rewrite Hc in H1. congruence. }
+    assert (E2 : eval f2 body 0 (initial_state E input) [] <> OutOfFuel).
+    { intro Hc. rewrite Hc in H2. congruence. }
+    rewrite (eval_fuel_irrelevant f1 f2 _ _ _ _ E1 E2). reflexivity.
+  Qed.
+
   (** ** (B) termination with an explicit depth bound *)
   Section Termination.
     Variable nl : nat -> bool.
